@@ -264,6 +264,34 @@ class Sim:
             raise SimAbort()
         t.state = "running"
 
+    def timed_wait(self, op: tuple, cond, timeout) -> bool:
+        """Blocking operation with an optional timeout.  Returns True once ``cond()`` holds, False if
+        the wait timed out.  ``timeout=None`` waits for the condition.  A timeout of 0 polls.  Any
+        other timeout can only fire through the fault ``timeouts_fire = k``: the k-th timed wait
+        (k = 0: every one) that finds its condition false when it starts is made to last longer
+        than its timeout -- the peer it waits for is slow or stalled, which no finite timeout
+        excludes.  Fault-free runs never time out: simulated time only advances by steps."""
+        if timeout is None:
+            self.sched_point(op, cond=cond)
+            return True
+        if timeout <= 0:
+            self.sched_point(op)
+            return bool(cond())
+        self.sched_point(op)  # the call itself
+        if cond():
+            return True
+        plan = self.faults.get("timeouts_fire")
+        if plan is not None:
+            n = self.next_id("timed_wait_unsatisfied")
+            if plan == 0 or plan == n:
+                self.probe("fault_timeout_fired")
+                self.note("fault", "timeout", op[0], n)
+                fired = self.faults.setdefault("_fired", {})
+                fired["timeouts_fire"] = fired.get("timeouts_fire", 0) + 1
+                return False
+        self.sched_point(op, cond=cond)
+        return True
+
     def kill(self, task: Task) -> None:
         """The simulated process dies now (SIGTERM/SIGKILL): it is never
         scheduled again and none of its pending ``finally`` blocks run."""
